@@ -17,6 +17,13 @@ SIGS = ("count-mismatch", "negative-count")
 SIGS_B = ("final-count", "count-resurrected", "negative-count", "callback-missing")
 
 CORPUS = [
+    # partition_unique keep=last: the replaced element is falsy (0, then None) - its reference must be released all the same
+    {"mode": "sync", "nodes": [{"kind": "source", "ups": []}, {"kind": "partition_unique", "ups": [0], "n": 2, "key": ["modk", 2], "keep": "last"},
+                               {"kind": "sink", "mode": "sync", "f": ["id"], "ups": [1]}],
+     "ops": [{"op": "emit", "node": 0, "val": v, "md": [{"tag": i + 1, "ref": i + 1}]} for i, v in enumerate((0, 2, 4, 1, 0, 2, 3))]},
+    {"mode": "sync", "nodes": [{"kind": "source", "ups": []}, {"kind": "partition_unique", "ups": [0], "n": 3, "key": ["bucketNone", 3], "keep": "last"},
+                               {"kind": "sink", "mode": "sync", "f": ["id"], "ups": [1]}],
+     "ops": [{"op": "emit", "node": 0, "val": v, "md": [{"tag": i + 1, "ref": i + 1}]} for i, v in enumerate((None, 3, 0, 1, 6, 2))]},
     {"mode": "sync", "nodes": [{"kind": "source", "ups": []}, {"kind": "partition_unique", "ups": [0], "n": 2, "key": ["modk", 2], "keep": "first"},
                                {"kind": "sink", "mode": "sync", "f": ["id"], "ups": [1]}],
      "ops": [{"op": "emit", "node": 0, "val": v, "md": [{"tag": i + 1, "ref": i + 1}]} for i, v in enumerate((0, 2, 4, 1, 3))]},
